@@ -1494,6 +1494,73 @@ pub fn c17std_main(report: &str) -> i32 {
             }
         }
     }
+    // a real kernel fault and a two-step history on the unbuffered handles: fd 2 points at
+    // /dev/full (every write fails with ENOSPC) for one coloured write, then at the file again for
+    // the next one.  The first must fail, the second must deliver exactly its own frame (nothing
+    // left over from the failed call), and a File on /dev/full must report the failure too.
+    if violation.is_null() {
+        if let Ok(full) = std::fs::OpenOptions::new().write(true).open("/dev/full") {
+            use anstyle_wincon::WinconStream;
+            let color = |c: u8| if c == 0 { None } else { Some(crate::simw::ANSI_COLORS[(c - 1) as usize % 16]) };
+            'seq: for handle in [1u8, 3u8] {
+                for (fg, bg) in [(2u8, 0u8), (0, 5), (9, 12), (16, 16)] {
+                    evals += 1;
+                    unsafe {
+                        libc::dup2(full.as_raw_fd(), 2);
+                    }
+                    let first = catch(|| {
+                        if handle == 1 {
+                            std::io::stderr().write_colored(color(fg), color(bg), b"lost")
+                        } else {
+                            std::io::stderr().lock().write_colored(color(fg), color(bg), b"lost")
+                        }
+                    });
+                    fds.retarget(2, false);
+                    let name = if handle == 1 { "Stderr" } else { "StderrLock" };
+                    match first {
+                        Ok(Err(_)) => {}
+                        Ok(Ok(n)) => {
+                            violation = json!({"handle": handle, "fg": fg, "bg": bg, "data_index": 0, "data_hex": crate::trace::hex(b"lost"),
+                                "detail": format!("{name}::write_colored(fg={fg}, bg={bg}) onto /dev/full reported Ok({n}) although every write fails with ENOSPC")});
+                            break 'seq;
+                        }
+                        Err(_) => {
+                            violation = json!({"handle": handle, "fg": fg, "bg": bg, "data_index": 0, "data_hex": crate::trace::hex(b"lost"),
+                                "detail": format!("{name}::write_colored(fg={fg}, bg={bg}) onto /dev/full panicked")});
+                            break 'seq;
+                        }
+                    }
+                    // the next call on the same thread, on a healthy descriptor
+                    if let Err(detail) = c17std_one(&fds, handle, fg, bg, b"kept") {
+                        violation = json!({"handle": handle, "fg": fg, "bg": bg, "data_index": 0, "data_hex": crate::trace::hex(b"kept"),
+                            "detail": format!("after a coloured write that failed with ENOSPC: {detail}")});
+                        break 'seq;
+                    }
+                }
+            }
+            if violation.is_null() {
+                for (fg, bg) in [(1u8, 0u8), (0, 3), (10, 4)] {
+                    evals += 1;
+                    let mut f = match std::fs::OpenOptions::new().write(true).open("/dev/full") {
+                        Ok(f) => f,
+                        Err(_) => break,
+                    };
+                    match catch(|| f.write_colored(color(fg), color(bg), b"data")) {
+                        Ok(Err(_)) => {}
+                        Ok(Ok(n)) => {
+                            violation = json!({"handle": 9, "fg": fg, "bg": bg, "data_index": 0, "data_hex": crate::trace::hex(b"data"),
+                                "detail": format!("File::write_colored(fg={fg}, bg={bg}) on /dev/full reported Ok({n}) although every write fails with ENOSPC")});
+                            break;
+                        }
+                        Err(_) => {
+                            violation = json!({"handle": 9, "fg": fg, "bg": bg, "data_index": 0, "data_hex": crate::trace::hex(b"data"), "detail": "File::write_colored on /dev/full panicked"});
+                            break;
+                        }
+                    }
+                }
+            }
+        }
+    }
     fds.retarget(1, false);
     fds.retarget(2, false);
     let rep = json!({"evaluations": evals, "violation": violation});
@@ -1503,29 +1570,26 @@ pub fn c17std_main(report: &str) -> i32 {
     0
 }
 
-pub fn c17std_replay(doc: &Value, path: &str) -> i32 {
-    let t = &doc["trace"];
-    let (h, fg, bg) = (t["handle"].as_u64().unwrap_or(0) as u8, t["fg"].as_u64().unwrap_or(0) as u8, t["bg"].as_u64().unwrap_or(0) as u8);
-    let data = crate::trace::unhex(t["data_hex"].as_str().unwrap_or("")).unwrap_or_default();
-    let fds = match Fds::new() {
-        Ok(f) => f,
-        Err(e) => {
-            eprintln!("vsim: cannot open pty: {e}");
-            return 2;
-        }
-    };
+pub fn c17std_replay(_doc: &Value, path: &str) -> i32 {
+    // the whole std-handle suite is deterministic and takes a fraction of a second: re-run it
     let saved = unsafe { libc::dup(1) };
     let mut out = unsafe { File::from_raw_fd(saved) };
-    let r = c17std_one(&fds, h, fg, bg, &data);
-    match r {
-        Err(detail) => {
-            let _ = writeln!(out, "replay: class=bad-framing\n  {detail}");
-            let _ = writeln!(out, "VIOLATION property=C17 replay={path}");
-            1
-        }
-        Ok(()) => {
-            let _ = writeln!(out, "replay: no violation");
-            0
-        }
+    let report = format!("{}/target/tmp/c17std-replay-{}.json", crate::report::verif_root(), std::process::id());
+    let _ = std::fs::create_dir_all(format!("{}/target/tmp", crate::report::verif_root()));
+    let rc = c17std_main(&report);
+    let text = std::fs::read_to_string(&report).unwrap_or_default();
+    let _ = std::fs::remove_file(&report);
+    let rep: Value = serde_json::from_str(&text).unwrap_or(Value::Null);
+    if rc != 0 || rep.is_null() {
+        let _ = writeln!(out, "replay: could not run the std-handle suite");
+        return 2;
+    }
+    if rep["violation"].is_null() {
+        let _ = writeln!(out, "replay: no violation");
+        0
+    } else {
+        let _ = writeln!(out, "replay: class=bad-framing\n  {}", rep["violation"]["detail"].as_str().unwrap_or(""));
+        let _ = writeln!(out, "VIOLATION property=C17 replay={path}");
+        1
     }
 }
